@@ -176,12 +176,14 @@ theorem monoX_stepCreated (p : Pool) (t : Nat) (tk : PTask) : MonoX t p (p.stepC
 
 theorem monoX_workerCancelled (p : Pool) (t : Nat) (tk : PTask) : MonoX t p (p.workerCancelled t tk) := by
   unfold workerCancelled
-  simp only
-  have h0 : MonoX t p ((p.logEv (.sawCancel t)).modTask t fun k => { k with sawCancel := true, phase := .wrapUp, nSaw := k.nSaw + 1 }) :=
-    ((tame_logEv p _).mono.toX t).trans (monoX_modTask _ t _)
   split
-  · exact h0.trans (monoX_afterWorker _ t _)
-  · exact h0.trans (monoX_taskCancellation _ t tk)
+  · exact (((tame_logEv p _).mono.toX t).trans (monoX_modTask _ t _)).trans (monoX_suspendTask _ t _)
+  · simp only
+    have h0 : MonoX t p ((p.logEv (.sawCancel t)).modTask t fun k => { k with sawCancel := true, phase := .wrapUp, nSaw := k.nSaw + 1 }) :=
+      ((tame_logEv p _).mono.toX t).trans (monoX_modTask _ t _)
+    split
+    · exact h0.trans (monoX_afterWorker _ t _)
+    · exact h0.trans (monoX_taskCancellation _ t tk)
 
 theorem monoX_stepInWorker (p : Pool) (t : Nat) (tk : PTask) : MonoX t p (p.stepInWorker t tk) := by
   unfold stepInWorker
